@@ -8,6 +8,11 @@ TRUSTED_COMMON = [
 ]
 
 FAMILY_ASSUMPTIONS = {
+    "guard": [
+        "bitmaps are abstract version counters here (/verif/include/topology.model.h): hwloc_bitmap_intersects returns a ghost fact and logs its arguments, hwloc_bitmap_and/copy bump the destination's version; the real bitmap functions are verified under C03",
+        "assumed contract for hwloc_free_unlinked_object (assigns nothing that belongs to the topology) where it is replaced",
+        "only the error / refusal paths are decided: what a successful restrict/allow/insert does to the object tree is not applicable (DESIGN.md section 6)",
+    ],
     "bind": [
         "bitmap predicates (iszero, isincluded, copy, alloc/free) and the root-set getters are replaced by contract stubs over ghost facts (/verif/include/bind.model.h); their real implementations are verified under C03",
         "hwloc_cpuset_to_nodeset / hwloc_cpuset_from_nodeset (inline helpers of helper.h, C09) are replaced by contract stubs: the two call sites in bind.c are redirected by #define",
